@@ -9,6 +9,67 @@ Open Scope Z_scope.
 
 Definition ustep (u : unit) (e : ev) : option unit := Some u.
 
+(* the trigger mode never changes *)
+Lemma apply_async_et : forall s l s', apply_async s l = Some s' -> l_et s' = l_et s.
+Proof.
+  intros s l s' E. apply apply_async_cases in E. destruct E as [(b & t & _ & ->)|(b & c & cb & _ & ->)];
+    cbn [set_flag set_queues l_et]; unfold enqueue; destruct (_ && _); reflexivity.
+Qed.
+
+Lemma pull_from_et : forall picks i s lg s' lg' o r,
+  pull_from picks s lg i = (s', lg', o, r) -> l_et s' = l_et s.
+Proof.
+  intros picks. induction i as [|l i IH]; intros s lg s' lg' o r E; cbn [pull_from] in E.
+  - inversion E; reflexivity.
+  - destruct (apply_async s l) as [s1|] eqn:Ea.
+    + rewrite (IH _ _ _ _ _ _ E). eapply apply_async_et; eauto.
+    + destruct (negb picks && is_pick l); [eauto|inversion E; reflexivity].
+Qed.
+
+Lemma pull_gen_et : forall picks w o w', pull_gen picks w = (o, w') -> l_et (st w') = l_et (st w).
+Proof.
+  intros picks w o w' E. unfold pull_gen in E. destruct (halt w); [inversion E; reflexivity|].
+  destruct (pull_from picks (st w) (log w) (inp w)) as [[[s lg] o'] r] eqn:Ep.
+  pose proof (pull_from_et _ _ _ _ _ _ _ _ Ep) as H. destruct o'; inversion E; subst; exact H.
+Qed.
+
+Lemma sys_wr_et : forall cid fd src exact w k w', sys_wr cid fd src exact w = (k, w') -> l_et (st w') = l_et (st w).
+Proof.
+  intros cid fd src exact w k w' E. rewrite sys_wr_eq in E.
+  destruct (pull _) as [[[nm0 args]|] w1] eqn:Ep; pose proof (pull_gen_et _ _ _ _ Ep) as H1; rewrite st_emit in H1.
+  2:{ inversion E; subst; exact H1. }
+  assert (Hd : forall what, l_et (st (desync what w1)) = l_et (st w)) by (intros; rewrite st_desync; exact H1).
+  destruct (String.eqb nm0 "r"); [|inversion E; subst; apply Hd].
+  destruct args as [|[?|?|nm] [|[off|?|?] [|[n|?|?] rest]]]; try (inversion E; subst; apply Hd).
+  destruct (negb (sym_eqb nm "wr")); [inversion E; subst; apply Hd|].
+  destruct (_ || _ || _); [inversion E; subst; apply Hd|].
+  cbv zeta in E. destruct (n <? 0).
+  - destruct rest as [|[?|?|e] ?]; inversion E; subst; rewrite ?st_ghost, ?st_emit; try exact H1.
+    destruct (is_eagain e); rewrite ?st_ghost, ?st_emit; exact H1.
+  - inversion E; subst. rewrite st_ghost, st_emit. exact H1.
+Qed.
+
+Lemma sysret_et : forall name w k w', sysret name w = (k, w') -> l_et (st w') = l_et (st w).
+Proof.
+  intros name w k w' E. rewrite sysret_eq in E.
+  destruct (pull w) as [[[nm0 args]|] w1] eqn:Ep; pose proof (pull_gen_et _ _ _ _ Ep) as H1.
+  2:{ inversion E; subst; exact H1. }
+  assert (Hd : forall what, l_et (st (desync what w1)) = l_et (st w)) by (intros; rewrite st_desync; exact H1).
+  destruct (String.eqb nm0 "r"); [|inversion E; subst; apply Hd].
+  destruct args as [|[?|?|nm] [|[n|?|?] rest]]; try (inversion E; subst; apply Hd).
+  destruct (negb (sym_eqb nm name)); [inversion E; subst; apply Hd|].
+  destruct (n <? 0); [destruct rest as [|[?|?|?] ?]|]; inversion E; subst; exact H1.
+Qed.
+
+Lemma sys_et : forall name args w k w', sys name args w = (k, w') -> l_et (st w') = l_et (st w).
+Proof. intros name args w k w' E. unfold sys in E. rewrite (sysret_et _ _ _ _ E), st_emit. reflexivity. Qed.
+
+Lemma epctl_et : forall op fd rw e w r w', epctl op fd rw e w = (r, w') -> l_et (st w') = l_et (st w).
+Proof.
+  intros op fd rw e w r w' E. unfold epctl in E. destruct (sys "epctl" _ w) as [k w1] eqn:Es.
+  pose proof (sys_et _ _ _ _ _ Es) as H. destruct k; inversion E; subst; exact H.
+Qed.
+
 Section ET.
 Variable et : bool.
 
@@ -67,11 +128,12 @@ Inductive qxa :=
 | QReg (c fd : Z)
 | QLt (c : Z)
 | QRegd (c : Z)
-| QE (c : Z) (o : bool)      (* inside a write: c_out c = [], and (o) c is owed *)
+| QE (c fd : Z) (o : bool)   (* inside a write: c (on descriptor fd) has c_out = [], and (o) is owed *)
 | QX (c : Z)                 (* c is exempt from the main clause until the write settles *)
 | QEf (c fd : Z)             (* c is open on descriptor fd with an empty outbound buffer *)
 | QNoReg (fd : Z)            (* no connection is registered under fd *)
 | QOf (c fd : Z)             (* level-triggered: c is open on descriptor fd *)
+| QXf (c fd : Z)             (* c (on descriptor fd) is exempt until its write interest is registered *)
 | QFalse.
 
 Definition qsem (xa : qxa) (p : progst) (s : lstate) : Prop :=
@@ -81,13 +143,18 @@ Definition qsem (xa : qxa) (p : progst) (s : lstate) : Prop :=
   | QReg c fd => c < l_next s /\ c_fd (getc s c) = fd /\ alookup fd (l_reg s) = None
   | QLt c => c < l_next s
   | QRegd c => c < l_next s /\ alookup (c_fd (getc s c)) (l_reg s) = Some c
-  | QE c o => c < l_next s /\ c_out (getc s c) = [] /\ (o = true -> zmem c (p_owed p) = true)
-  | QX c => et = true
+  | QE c fd o => c < l_next s /\ c_out (getc s c) = [] /\ (o = true -> zmem c (p_owed p) = true) /\
+                 c_fd (getc s c) = fd /\ (c_opened (getc s c) = true \/ zmem c (p_dead p) = true)
+  | QX c => True
   | QEf c fd => c < l_next s /\ c_out (getc s c) = [] /\ c_fd (getc s c) = fd /\ c_opened (getc s c) = true
   | QNoReg fd => alookup fd (l_reg s) = None
-  | QOf c fd => et = false /\ c < l_next s /\ c_fd (getc s c) = fd /\ c_opened (getc s c) = true
+  | QOf c fd => c < l_next s /\ c_fd (getc s c) = fd /\ c_opened (getc s c) = true
+  | QXf c fd => c < l_next s /\ c_fd (getc s c) = fd /\ (c_opened (getc s c) = true \/ zmem c (p_dead p) = true)
   | QFalse => False
   end.
+
+Definition exempt (xa : qxa) (c : Z) : Prop :=
+  match xa with QX c0 => c0 = c | QXf c0 _ => c0 = c | _ => False end.
 
 Definition served (p : progst) (fd c : Z) : Prop :=
   if et then zmem c (p_owed p) = true else getd false fd (p_want_w p) = true.
@@ -95,22 +162,23 @@ Definition served (p : progst) (fd c : Z) : Prop :=
 (* W: connections inside el_close (announced closed, descriptor not yet closed);
    ops: connections that stay open until their close is announced;
    rf: the connection whose full read is being followed up *)
-Record RQ (W ops : list Z) (xa : qxa) (rf : option Z) (u : unit) (x : progst * rdst) (s : lstate) : Prop := mkRQ {
+Record RQ (W : list Z) (ops : list (Z * Z)) (xa : qxa) (rf : option Z) (u : unit) (x : progst * rdst) (s : lstate) : Prop := mkRQ {
   q_et : l_et s = et /\ p_et (fst x) = et;
   q_last : p_last (fst x) = None;
   q_opn : forall c, c_opened (getc s c) = true -> c < l_next s;
   q_task : forall c cb, In (TRegister c cb) (tasks s) -> c < l_next s;
   q_reg : forall c, c_opened (getc s c) = true ->
       alookup (c_fd (getc s c)) (l_reg s) = Some c \/ (alookup (c_fd (getc s c)) (l_reg s) = None /\ In c W);
-  q_reglt : forall fd c, In (fd, c) (l_reg s) -> c < l_next s /\ alookup fd (l_reg s) = Some c;
+  q_reglt : forall fd c, In (fd, c) (l_reg s) -> c < l_next s /\ alookup fd (l_reg s) = Some c /\ c_fd (getc s c) = fd;
   q_regop : forall fd c, In (fd, c) (l_reg s) -> pdead (fst x) c = false ->
       c_opened (getc s c) = true \/ c_udp (getc s c) = true \/ xa = QRegd c;
   q_W : forall c, In c W -> pdead (fst x) c = true /\ alookup (c_fd (getc s c)) (l_reg s) = None /\ c < l_next s;
-  q_ops : forall c, In c ops -> c_opened (getc s c) = true \/ pdead (fst x) c = true;
+  q_ops : forall c fd, In (c, fd) ops -> c < l_next s /\ c_fd (getc s c) = fd /\
+      (c_opened (getc s c) = true \/ pdead (fst x) c = true);
   q_nop : forall c, c_opened (getc s c) = false -> c_udp (getc s c) = false ->
       pdead (fst x) c = false -> pdirty (fst x) c = false -> c_out (getc s c) = [];
   q_main : forall fd c, In (fd, c) (l_reg s) -> c_udp (getc s c) = false ->
-      pdead (fst x) c = false -> pdirty (fst x) c = false -> c_out (getc s c) <> [] -> xa <> QX c ->
+      pdead (fst x) c = false -> pdirty (fst x) c = false -> c_out (getc s c) <> [] -> ~ exempt xa c ->
       served (fst x) fd c;
   q_rd : et = true -> r_full (snd x) = None \/
       (exists c, rf = Some c /\ r_full (snd x) = Some c /\ c_opened (getc s c) = true /\ ~ In c W);
@@ -208,23 +276,24 @@ Proof.
   - intros c0 cb H. apply R4 in H. lia.
   - intros c0. destruct (Z.eq_dec c0 (l_next s)) as [->|N]; [rewrite Gn; congruence|].
     rewrite getc_set_next, getc_setc. replace (c0 =? l_next s) with false by lia. auto.
-  - intros fd c0 H. destruct (R6 _ _ H). split; [lia|assumption].
+  - intros fd c0 H. destruct (R6 _ _ H) as (A & B & C). rewrite (G _ A). repeat split; auto. lia.
   - intros fd c0 H D. pose proof (proj1 (R6 _ _ H)) as Hlt. rewrite (G _ Hlt). eauto.
   - intros c0 H. destruct (R8 _ H) as (A & B & C). rewrite (G _ C). repeat split; auto. lia.
-  - intros c0 H. destruct (R9 _ H) as [A|A]; [|right; exact A]. left. rewrite (G _ (R3 _ A)). exact A.
+  - intros c0 fd H. destruct (R9 _ _ H) as (A & B & C). rewrite (G _ A). repeat split; auto. lia.
   - intros c0. destruct (Z.eq_dec c0 (l_next s)) as [->|N]; [rewrite Gn; auto|].
     rewrite getc_set_next, getc_setc. replace (c0 =? l_next s) with false by lia. auto.
   - intros fd c0 H. pose proof (proj1 (R6 _ _ H)) as Hlt. rewrite (G _ Hlt). eauto.
   - intros E. destruct (R12 E) as [A|(c0 & A & B & C & D)]; [left; exact A|].
     right. exists c0. rewrite (G _ (R3 _ C)). auto.
-  - destruct xa as [|c0|c0 fd|c0|c0|c0 o|c0|c0 fd|fd|c0 fd|]; cbn [qsem] in *; cbn [set_next setc l_next l_reg]; auto.
+  - destruct xa as [|c0|c0 fd|c0|c0|c0 fd o|c0|c0 fd|fd|c0 fd|c0 fd|]; cbn [qsem] in *; cbn [set_next setc l_next l_reg]; auto.
     + rewrite (G _ (R3 _ R13)). exact R13.
     + destruct R13 as (A & B & C). rewrite (G _ A). repeat split; auto. lia.
     + lia.
     + destruct R13 as (A & B). rewrite (G _ A). split; [lia|exact B].
-    + destruct R13 as (A & B & C). rewrite (G _ A). repeat split; auto. lia.
+    + destruct R13 as (A & B & C & D & E). rewrite (G _ A). repeat split; auto. lia.
     + destruct R13 as (A & B & C & D). rewrite (G _ A). repeat split; auto. lia.
-    + destruct R13 as (A & B & C & D). rewrite (G _ B). repeat split; auto. lia.
+    + destruct R13 as (A & B & C). rewrite (G _ A). repeat split; auto. lia.
+    + destruct R13 as (A & B & C). rewrite (G _ A). repeat split; auto. lia.
 Qed.
 
 Lemma RQ_pull_ok : forall W ops xa rf, pull_ok ustep qstep (RQ W ops xa rf).
@@ -313,7 +382,7 @@ Lemma RQ_prog : forall W ops xa xa' rf u p p' b s,
   (forall c, c_opened (getc s c) = false -> c_udp (getc s c) = false ->
      pdead p' c = false -> pdirty p' c = false -> c_out (getc s c) = []) ->
   (forall fd c, In (fd, c) (l_reg s) -> c_udp (getc s c) = false ->
-     pdead p' c = false -> pdirty p' c = false -> c_out (getc s c) <> [] -> xa' <> QX c -> served p' fd c) ->
+     pdead p' c = false -> pdirty p' c = false -> c_out (getc s c) <> [] -> ~ exempt xa' c -> served p' fd c) ->
   qsem xa' p' s ->
   RQ W ops xa' rf u (p', b) s.
 Proof.
@@ -321,7 +390,7 @@ Proof.
   cbn [fst snd] in *. constructor; cbn [fst snd]; auto.
   - destruct R1. split; congruence.
   - intros c H. destruct (R8 _ H) as (A & B & C). auto.
-  - intros c H. destruct (R9 _ H) as [A|A]; auto.
+  - intros c fd H. destruct (R9 _ _ H) as (A & B & [C|C]); auto.
 Qed.
 
 (* one connection changes: descriptor, opened and datagram flags do not *)
@@ -330,8 +399,8 @@ Lemma RQ_setc : forall W ops xa rf u p b s c c',
   c_fd c' = c_fd (getc s c) -> c_opened c' = c_opened (getc s c) -> c_udp c' = c_udp (getc s c) ->
   (c_opened c' = false -> c_udp c' = false -> pdead p c = false -> pdirty p c = false -> c_out c' = []) ->
   (forall fd, In (fd, c) (l_reg s) -> c_udp c' = false -> pdead p c = false -> pdirty p c = false ->
-     c_out c' <> [] -> xa <> QX c -> served p fd c) ->
-  (forall o, xa = QE c o -> c_out c' = []) ->
+     c_out c' <> [] -> ~ exempt xa c -> served p fd c) ->
+  (forall fd o, xa = QE c fd o -> c_out c' = []) ->
   (forall fd, xa = QEf c fd -> c_out c' = []) ->
   RQ W ops xa rf u (p, b) (setc s c c').
 Proof.
@@ -340,17 +409,20 @@ Proof.
   constructor; cbn [fst snd setc l_reg l_next l_et]; auto.
   - intros c0. rewrite getc_setc. destruct (Z.eqb_spec c0 c) as [->|N]; [|auto]. rewrite Ho. auto.
   - intros c0. rewrite getc_setc. destruct (Z.eqb_spec c0 c) as [->|N]; [|auto]. rewrite Ho, Hf. auto.
+  - intros fd c0 H. destruct (R6 _ _ H) as (A & B & C). rewrite getc_setc.
+    destruct (Z.eqb_spec c0 c) as [->|N]; [rewrite Hf|]; auto.
   - intros fd c0 H D. rewrite getc_setc. destruct (Z.eqb_spec c0 c) as [->|N]; [|eauto]. rewrite Ho, Hu. eauto.
   - intros c0 H. rewrite getc_setc. destruct (R8 _ H) as (A & B & C).
     destruct (Z.eqb_spec c0 c) as [->|N]; [|auto]. rewrite Hf. auto.
-  - intros c0 H. rewrite getc_setc. destruct (Z.eqb_spec c0 c) as [->|N]; [|auto]. rewrite Ho. auto.
+  - intros c0 fd H. destruct (R9 _ _ H) as (A & B & C). rewrite getc_setc.
+    destruct (Z.eqb_spec c0 c) as [->|N]; [rewrite Hf, Ho|]; auto.
   - intros c0. rewrite getc_setc. destruct (Z.eqb_spec c0 c) as [->|N]; [|auto]. auto.
   - intros fd c0 H. rewrite getc_setc. destruct (Z.eqb_spec c0 c) as [->|N]; [|eauto]. intros. apply (Hm fd); auto.
   - intros E. destruct (R12 E) as [A|(c0 & A & B & C & D)]; [left; exact A|right].
     exists c0. rewrite getc_setc. destruct (Z.eqb_spec c0 c) as [->|N]; [rewrite Ho|]; auto.
-  - destruct xa as [|c0|c0 fd|c0|c0|c0 o|c0|c0 fd|fd|c0 fd|]; cbn [qsem] in *; cbn [setc l_next l_reg]; rewrite ?getc_setc; auto;
+  - destruct xa as [|c0|c0 fd|c0|c0|c0 fd o|c0|c0 fd|fd|c0 fd|c0 fd|]; cbn [qsem] in *; cbn [setc l_next l_reg]; rewrite ?getc_setc; auto;
       destruct (Z.eqb_spec c0 c) as [->|N]; rewrite ?Ho, ?Hf; auto.
-    + destruct R13 as (A & B & C). repeat split; eauto.
+    + destruct R13 as (A & B & C & D & E). repeat split; eauto.
     + destruct R13 as (A & B & C & D). repeat split; eauto.
 Qed.
 
@@ -363,134 +435,35 @@ Proof.
   intros [] [p b] _ HR. unfold wc in *. apply RQ_setc; auto; rewrite ?Ho, ?Hu, ?Hout.
   - apply (q_nop _ _ _ _ _ _ _ HR).
   - intros fd H. apply (q_main _ _ _ _ _ _ _ HR); assumption.
-  - intros o E. pose proof (q_x _ _ _ _ _ _ _ HR) as X. rewrite E in X. cbn [qsem] in X. tauto.
+  - intros fd o E. pose proof (q_x _ _ _ _ _ _ _ HR) as X. rewrite E in X. cbn [qsem] in X. tauto.
   - intros fd E. pose proof (q_x _ _ _ _ _ _ _ HR) as X. rewrite E in X. cbn [qsem] in X. tauto.
 Qed.
 
-(* markers *)
-Lemma Q_fail : forall W ops xa rf c w,
-  QINV (RQ W ops xa rf) w -> QINV (RQ W ops xa rf) (ghost "fail" c [] w).
+Lemma pdead_cons : forall p c c0,
+  pdead (mkP (p_et p) (p_want_w p) (p_last p) (p_owed p) (p_dirty p) (c :: p_dead p)) c0 = (c0 =? c) || pdead p c0.
+Proof. reflexivity. Qed.
+
+(* `g fail` / `cb close`: the connection is doomed *)
+Lemma RQ_dead_add : forall W ops xa rf u p b s c,
+  RQ W ops xa rf u (p, b) s ->
+  RQ W ops xa rf u (mkP (p_et p) (p_want_w p) (p_last p) (p_owed p) (p_dirty p) (c :: p_dead p), b) s.
 Proof.
-  intros W ops xa rf c w HI. unfold ghost. eapply Inv_emit; [exact HI|reflexivity|].
-  intros [] [p b] _ HR. cbn [ustep]. unfold qstep, rdx. cbn [fst snd prog_step].
-  replace (if et then rd_step b (EOut ("g", [ASym "fail"; AInt c; ABytes []])) else Some b) with (Some b)
-    by (destruct et; reflexivity).
-  eexists. split; [reflexivity|].
-  assert (Hd : forall c0, pdead p c0 = true -> pdead (mkP (p_et p) (p_want_w p) (p_last p) (p_owed p) (p_dirty p) (c :: p_dead p)) c0 = true).
-  { intros c0 H. unfold pdead in *. cbn [p_dead]. rewrite zmem_cons, H. apply orb_true_r. }
-  assert (Hd' : forall c0, pdead (mkP (p_et p) (p_want_w p) (p_last p) (p_owed p) (p_dirty p) (c :: p_dead p)) c0 = false -> pdead p c0 = false).
+  intros W ops xa rf u p b s c HR.
+  set (p' := mkP (p_et p) (p_want_w p) (p_last p) (p_owed p) (p_dirty p) (c :: p_dead p)).
+  assert (Hd : forall c0, pdead p c0 = true -> pdead p' c0 = true).
+  { intros c0 H. unfold p'. rewrite pdead_cons, H. apply orb_true_r. }
+  assert (Hd' : forall c0, pdead p' c0 = false -> pdead p c0 = false).
   { intros c0 H. destruct (pdead p c0) eqn:E; [rewrite (Hd _ E) in H; discriminate|reflexivity]. }
   eapply RQ_prog; [exact HR|reflexivity|exact (q_last _ _ _ _ _ _ _ HR)|exact Hd| | | |].
   - intros fd c0 H D. apply (q_regop _ _ _ _ _ _ _ HR fd c0 H). apply Hd'. exact D.
   - intros c0 A B D E. apply (q_nop _ _ _ _ _ _ _ HR c0 A B); [apply Hd'; exact D|exact E].
   - intros fd c0 H A D E F G. apply (q_main _ _ _ _ _ _ _ HR fd c0 H A); auto.
-  - pose proof (q_x _ _ _ _ _ _ _ HR) as X. destruct xa; exact X.
-Qed.
-
-Lemma served_owed_add : forall p c fd c0, served p fd c0 -> served (set_owed p (c :: p_owed p)) fd c0.
-Proof.
-  intros p c fd c0. unfold served, set_owed. cbn [p_owed p_want_w]. destruct et; [|auto].
-  intros H. rewrite zmem_cons, H. apply orb_true_r.
-Qed.
-
-(* `g eagain` / `g rearm-write`: the connection is owed *)
-Lemma RQ_owed_add : forall W ops xa rf u p b s c,
-  RQ W ops xa rf u (p, b) s ->
-  RQ W ops (match xa with QE c0 o => if c0 =? c then QE c0 true else xa | _ => xa end)
-     rf u (set_owed p (c :: p_owed p), b) s.
-Proof.
-  intros W ops xa rf u p b s c HR.
-  eapply RQ_prog; [exact HR|reflexivity|exact (q_last _ _ _ _ _ _ _ HR)|auto| | | |].
-  - intros fd c0 H D. destruct (q_regop _ _ _ _ _ _ _ HR fd c0 H D) as [A|[A|A]]; auto.
-    subst xa. auto.
-  - exact (q_nop _ _ _ _ _ _ _ HR).
-  - intros fd c0 H A D E F G. apply served_owed_add. apply (q_main _ _ _ _ _ _ _ HR fd c0 H A D E F).
-    intro Ex. apply G. rewrite Ex. reflexivity.
   - pose proof (q_x _ _ _ _ _ _ _ HR) as X. cbn [fst] in X.
-    destruct xa as [|c0|c0 fd|c0|c0|c0 o|c0|c0 fd|fd|c0 fd|]; cbn [qsem] in *; auto.
-    destruct (Z.eqb_spec c0 c) as [->|N]; cbn [qsem set_owed p_owed].
-    + destruct X as (A & B & C). repeat split; auto. intros _. rewrite zmem_cons, Z.eqb_refl. reflexivity.
-    + destruct X as (A & B & C). repeat split; auto. intros Eo. rewrite zmem_cons, (C Eo). apply orb_true_r.
+    destruct xa as [|c0|c0 fd|c0|c0|c0 fd o|c0|c0 fd|fd|c0 fd|c0 fd|]; cbn [qsem] in *; auto.
+    + destruct X as (A & B & C & D & [E|E]); repeat split; auto. right. apply (Hd c0). exact E.
+    + destruct X as (A & B & [E|E]); repeat split; auto. right. apply (Hd c0). exact E.
 Qed.
 
-(* `g hand`: the connection is no longer owed *)
-Definition xa_hand (xa : qxa) (c : Z) : qxa :=
-  match xa with QE c0 o => if c0 =? c then QE c0 false else xa | _ => xa end.
-
-Lemma RQ_owed_rem : forall W ops xa rf u p b s c,
-  RQ W ops xa rf u (p, b) s ->
-  (xa = QX c \/ (exists o, xa = QE c o) \/ (exists fd, xa = QOf c fd)) ->
-  RQ W ops (xa_hand xa c) rf u (set_owed p (zrem c (p_owed p)), b) s.
-Proof.
-  intros W ops xa rf u p b s c HR Hex0.
-  pose proof (q_x _ _ _ _ _ _ _ HR) as X. cbn [fst] in X.
-  assert (Hex : et = true -> xa = QX c \/ exists o, xa = QE c o).
-  { intros Het. destruct Hex0 as [A|[A|[fd A]]]; auto. subst xa. cbn [qsem] in X. destruct X. congruence. }
-  eapply RQ_prog; [exact HR|reflexivity|exact (q_last _ _ _ _ _ _ _ HR)|auto| | | |].
-  - intros fd c0 H D. destruct (q_regop _ _ _ _ _ _ _ HR fd c0 H D) as [A|[A|A]]; auto.
-    subst xa. auto.
-  - exact (q_nop _ _ _ _ _ _ _ HR).
-  - intros fd c0 H A D E F G. unfold served, set_owed. cbn [p_owed p_want_w].
-    destruct et eqn:Eet.
-    + rewrite zmem_zrem. destruct (Z.eqb_spec c0 c) as [->|N].
-      * exfalso. destruct (Hex eq_refl) as [Ex|[o Ex]]; subst xa; cbn [xa_hand] in G.
-        { apply G. reflexivity. }
-        { cbn [qsem] in X. destruct X as (_ & B & _). congruence. }
-      * assert (M : served p fd c0).
-        { apply (q_main _ _ _ _ _ _ _ HR fd c0 H A D E F). intro Ex. apply G. rewrite Ex. reflexivity. }
-        unfold served in M. rewrite Eet in M. exact M.
-    + assert (M : served p fd c0).
-      { apply (q_main _ _ _ _ _ _ _ HR fd c0 H A D E F). intro Ex. apply G. rewrite Ex. reflexivity. }
-      unfold served in M. rewrite Eet in M. exact M.
-  - destruct xa as [|c0|c0 fd|c0|c0|c0 o|c0|c0 fd|fd|c0 fd|]; cbn [qsem xa_hand] in *; auto.
-    destruct (Z.eqb_spec c0 c) as [->|N]; cbn [qsem set_owed p_owed].
-    + destruct X as (A & B & C). repeat split; auto. discriminate.
-    + destruct X as (A & B & C). repeat split; auto. intros Eo. rewrite zmem_zrem. replace (c0 =? c) with false by lia. auto.
-Qed.
-
-(* entering / leaving the exemption *)
-Lemma RQ_exempt : forall W ops rf u x s c, et = true -> RQ W ops QNone rf u x s -> RQ W ops (QX c) rf u x s.
-Proof.
-  intros W ops rf u [p b] s c Het HR. eapply RQ_prog; [exact HR|reflexivity|exact (q_last _ _ _ _ _ _ _ HR)|auto| | | |exact Het].
-  - intros fd c0 H D. destruct (q_regop _ _ _ _ _ _ _ HR fd c0 H D) as [A|[A|A]]; auto. discriminate.
-  - exact (q_nop _ _ _ _ _ _ _ HR).
-  - intros fd c0 H A D E F G. apply (q_main _ _ _ _ _ _ _ HR fd c0 H A D E F). discriminate.
-Qed.
-
-Lemma RQ_unexempt : forall W ops xa rf u p b s c,
-  RQ W ops xa rf u (p, b) s -> (xa = QX c \/ exists o, xa = QE c o) ->
-  (forall fd, In (fd, c) (l_reg s) -> c_udp (getc s c) = false -> pdead p c = false -> pdirty p c = false ->
-     c_out (getc s c) <> [] -> served p fd c) ->
-  RQ W ops QNone rf u (p, b) s.
-Proof.
-  intros W ops xa rf u p b s c HR Hxa Hs.
-  eapply RQ_prog; [exact HR|reflexivity|exact (q_last _ _ _ _ _ _ _ HR)|auto| | | |exact I].
-  - intros fd c0 H D. destruct (q_regop _ _ _ _ _ _ _ HR fd c0 H D) as [A|[A|A]]; auto.
-    destruct Hxa as [Ex|[o Ex]]; subst xa; discriminate.
-  - exact (q_nop _ _ _ _ _ _ _ HR).
-  - intros fd c0 H A D E F _. destruct (Z.eq_dec c0 c) as [->|N]; [apply Hs; auto|].
-    apply (q_main _ _ _ _ _ _ _ HR fd c0 H A D E F).
-    destruct Hxa as [Ex|[o Ex]]; subst xa; [intro Q; inversion Q; congruence|discriminate].
-Qed.
-
-Lemma Q_unexempt : forall W ops xa rf w c, (xa = QX c \/ exists o, xa = QE c o) ->
-  (forall u p b, RQ W ops xa rf u (p, b) (st w) ->
-     forall fd, In (fd, c) (l_reg (st w)) -> c_udp (wc w c) = false -> pdead p c = false -> pdirty p c = false ->
-     c_out (wc w c) <> [] -> served p fd c) ->
-  QINV (RQ W ops xa rf) w -> QINV (RQ W ops QNone rf) w.
-Proof.
-  intros W ops xa rf w c Hxa Hs HI. eapply Q_weaken; [|exact HI]. intros u [p b] HR.
-  eapply RQ_unexempt; [exact HR|exact Hxa|]. apply (Hs u p b HR).
-Qed.
-
-Lemma Q_exempt : forall W ops rf w c, l_et (st w) = true ->
-  QINV (RQ W ops QNone rf) w -> QINV (RQ W ops (QX c) rf) w.
-Proof.
-  intros W ops rf w c Hb HI. eapply Q_weaken; [|exact HI]. intros u x HR. apply RQ_exempt; [|exact HR].
-  destruct (q_et _ _ _ _ _ _ _ HR) as [A _]. congruence.
-Qed.
-
-(* the three markers of sys_wr *)
 Lemma qstep_g : forall p b k c bs p', k <> "del" -> k <> "rearm-read" -> k <> "count" ->
   prog_step p (EOut ("g", [ASym k; AInt c; ABytes bs])) = Some p' ->
   qstep (p, b) (EOut ("g", [ASym k; AInt c; ABytes bs])) = Some (p', b).
@@ -502,19 +475,136 @@ Proof.
   rewrite Hr. reflexivity.
 Qed.
 
+Lemma Q_fail : forall W ops xa rf c w,
+  QINV (RQ W ops xa rf) w -> QINV (RQ W ops xa rf) (ghost "fail" c [] w).
+Proof.
+  intros W ops xa rf c w HI. unfold ghost. eapply Inv_emit; [exact HI|reflexivity|].
+  intros [] [p b] _ HR. cbn [ustep]. eexists. split; [apply qstep_g; try discriminate; reflexivity|].
+  apply RQ_dead_add. exact HR.
+Qed.
+
+Lemma served_owed_add : forall p c fd c0, served p fd c0 -> served (set_owed p (c :: p_owed p)) fd c0.
+Proof.
+  intros p c fd c0. unfold served, set_owed. cbn [p_owed p_want_w]. destruct et; [|auto].
+  intros H. rewrite zmem_cons, H. apply orb_true_r.
+Qed.
+
+(* `g eagain` / `g rearm-write`: the connection is owed *)
+Definition xa_owed (xa : qxa) (c : Z) : qxa :=
+  match xa with QE c0 fd o => if c0 =? c then QE c0 fd true else xa | _ => xa end.
+
+Lemma exempt_owed : forall xa c c0, exempt (xa_owed xa c) c0 <-> exempt xa c0.
+Proof. intros xa c c0. destruct xa; cbn; try tauto. destruct (_ =? _); cbn; tauto. Qed.
+
+Lemma RQ_owed_add : forall W ops xa rf u p b s c,
+  RQ W ops xa rf u (p, b) s -> RQ W ops (xa_owed xa c) rf u (set_owed p (c :: p_owed p), b) s.
+Proof.
+  intros W ops xa rf u p b s c HR.
+  eapply RQ_prog; [exact HR|reflexivity|exact (q_last _ _ _ _ _ _ _ HR)|auto| | | |].
+  - intros fd c0 H D. destruct (q_regop _ _ _ _ _ _ _ HR fd c0 H D) as [A|[A|A]]; auto.
+    subst xa. auto.
+  - exact (q_nop _ _ _ _ _ _ _ HR).
+  - intros fd c0 H A D E F G. apply served_owed_add. apply (q_main _ _ _ _ _ _ _ HR fd c0 H A D E F).
+    intro Ex. apply G. apply exempt_owed. exact Ex.
+  - pose proof (q_x _ _ _ _ _ _ _ HR) as X. cbn [fst] in X.
+    destruct xa as [|c0|c0 fd|c0|c0|c0 fd o|c0|c0 fd|fd|c0 fd|c0 fd|]; cbn [qsem xa_owed] in *; auto.
+    destruct (Z.eqb_spec c0 c) as [->|N]; cbn [qsem set_owed p_owed p_dead].
+    + destruct X as (A & B & C & D). repeat split; auto; try tauto. intros _. rewrite zmem_cons, Z.eqb_refl. reflexivity.
+    + destruct X as (A & B & C & D). repeat split; auto; try tauto. intros Eo. rewrite zmem_cons, (C Eo). apply orb_true_r.
+Qed.
+
+(* `g hand`: the connection is no longer owed *)
+Definition xa_hand (xa : qxa) (c : Z) : qxa :=
+  match xa with QE c0 fd o => if c0 =? c then QE c0 fd false else xa | _ => xa end.
+
+Lemma exempt_hand : forall xa c c0, exempt (xa_hand xa c) c0 <-> exempt xa c0.
+Proof. intros xa c c0. destruct xa; cbn; try tauto. destruct (_ =? _); cbn; tauto. Qed.
+
+Lemma RQ_owed_rem : forall W ops xa rf u p b s c,
+  RQ W ops xa rf u (p, b) s ->
+  (et = true -> exempt xa c \/ exists fd o, xa = QE c fd o) ->
+  RQ W ops (xa_hand xa c) rf u (set_owed p (zrem c (p_owed p)), b) s.
+Proof.
+  intros W ops xa rf u p b s c HR Hex.
+  pose proof (q_x _ _ _ _ _ _ _ HR) as X. cbn [fst] in X.
+  eapply RQ_prog; [exact HR|reflexivity|exact (q_last _ _ _ _ _ _ _ HR)|auto| | | |].
+  - intros fd c0 H D. destruct (q_regop _ _ _ _ _ _ _ HR fd c0 H D) as [A|[A|A]]; auto.
+    subst xa. auto.
+  - exact (q_nop _ _ _ _ _ _ _ HR).
+  - intros fd c0 H A D E F G. unfold served, set_owed. cbn [p_owed p_want_w].
+    assert (G' : ~ exempt xa c0) by (intro Ex; apply G; apply exempt_hand; exact Ex).
+    pose proof (q_main _ _ _ _ _ _ _ HR fd c0 H A D E F G') as M. unfold served in M.
+    destruct et eqn:Eet; [|exact M].
+    rewrite zmem_zrem. destruct (Z.eqb_spec c0 c) as [->|N]; [|exact M].
+    exfalso. destruct (Hex eq_refl) as [Ex|(fd0 & o & Ex)]; [tauto|].
+    subst xa. cbn [qsem] in X. destruct X as (_ & B & _). congruence.
+  - destruct xa as [|c0|c0 fd|c0|c0|c0 fd o|c0|c0 fd|fd|c0 fd|c0 fd|]; cbn [qsem xa_hand] in *; auto.
+    destruct (Z.eqb_spec c0 c) as [->|N]; cbn [qsem set_owed p_owed p_dead].
+    + destruct X as (A & B & C & D). repeat split; auto; try tauto. discriminate.
+    + destruct X as (A & B & C & D). repeat split; auto; try tauto.
+      intros Eo. rewrite zmem_zrem. replace (c0 =? c) with false by lia. auto.
+Qed.
+
+(* entering / leaving the exemption *)
+Lemma RQ_xa_weaken : forall W ops xa xa' rf u x s,
+  RQ W ops xa rf u x s -> (forall c, xa <> QRegd c) -> (forall c, exempt xa c -> exempt xa' c) ->
+  qsem xa' (fst x) s -> RQ W ops xa' rf u x s.
+Proof.
+  intros W ops xa xa' rf u [p b] s HR N2 Hex X. cbn [fst] in X.
+  eapply RQ_prog; [exact HR|reflexivity|exact (q_last _ _ _ _ _ _ _ HR)|auto| | | |exact X].
+  - intros fd c H D. destruct (q_regop _ _ _ _ _ _ _ HR fd c H D) as [A|[A|A]]; auto. exfalso. eapply N2; eauto.
+  - exact (q_nop _ _ _ _ _ _ _ HR).
+  - intros fd c H A D E F G. apply (q_main _ _ _ _ _ _ _ HR fd c H A D E F). intro Ex. apply G. apply Hex. exact Ex.
+Qed.
+
+Lemma RQ_unexempt : forall W ops xa rf u p b s c,
+  RQ W ops xa rf u (p, b) s -> (forall c0, exempt xa c0 -> c0 = c) -> (forall c0, xa <> QRegd c0) ->
+  (forall fd, In (fd, c) (l_reg s) -> c_udp (getc s c) = false -> pdead p c = false -> pdirty p c = false ->
+     c_out (getc s c) <> [] -> served p fd c) ->
+  RQ W ops QNone rf u (p, b) s.
+Proof.
+  intros W ops xa rf u p b s c HR Hxa N2 Hs.
+  eapply RQ_prog; [exact HR|reflexivity|exact (q_last _ _ _ _ _ _ _ HR)|auto| | | |exact I].
+  - intros fd c0 H D. destruct (q_regop _ _ _ _ _ _ _ HR fd c0 H D) as [A|[A|A]]; auto. exfalso. eapply N2; eauto.
+  - exact (q_nop _ _ _ _ _ _ _ HR).
+  - intros fd c0 H A D E F _. destruct (Z.eq_dec c0 c) as [->|N]; [apply Hs; auto|].
+    apply (q_main _ _ _ _ _ _ _ HR fd c0 H A D E F). intro Ex. apply N. apply Hxa. exact Ex.
+Qed.
+
+Lemma Q_unexempt : forall W ops xa rf w c, (forall c0, exempt xa c0 -> c0 = c) -> (forall c0, xa <> QRegd c0) ->
+  (forall u p b, RQ W ops xa rf u (p, b) (st w) ->
+     forall fd, In (fd, c) (l_reg (st w)) -> c_udp (wc w c) = false -> pdead p c = false -> pdirty p c = false ->
+     c_out (wc w c) <> [] -> served p fd c) ->
+  QINV (RQ W ops xa rf) w -> QINV (RQ W ops QNone rf) w.
+Proof.
+  intros W ops xa rf w c Hxa N2 Hs HI. eapply Q_weaken; [|exact HI]. intros u [p b] HR.
+  eapply RQ_unexempt; [exact HR|exact Hxa|exact N2|]. apply (Hs u p b HR).
+Qed.
+
+Lemma Q_xa_weaken : forall W ops xa xa' rf w, (forall c, xa <> QRegd c) -> (forall c, exempt xa c -> exempt xa' c) ->
+  (forall u x, RQ W ops xa rf u x (st w) -> qsem xa' (fst x) (st w)) ->
+  QINV (RQ W ops xa rf) w -> QINV (RQ W ops xa' rf) w.
+Proof.
+  intros W ops xa xa' rf w N2 Hex Hq HI. eapply Q_weaken; [|exact HI]. intros u x HR.
+  eapply RQ_xa_weaken; eauto.
+Qed.
+
+Lemma Q_exempt : forall W ops rf w c, QINV (RQ W ops QNone rf) w -> QINV (RQ W ops (QX c) rf) w.
+Proof. intros. eapply Q_xa_weaken; [| | |eassumption]; cbn; try discriminate; auto. intros c0 []. Qed.
+
+(* the three markers of sys_wr *)
 Lemma Q_hand : forall W ops xa rf c bs w,
-  (xa = QX c \/ (exists o, xa = QE c o) \/ (exists fd, xa = QOf c fd)) ->
+  (l_et (st w) = true -> exempt xa c \/ exists fd o, xa = QE c fd o) ->
   QINV (RQ W ops xa rf) w -> QINV (RQ W ops (xa_hand xa c) rf) (ghost "hand" c bs w).
 Proof.
   intros W ops xa rf c bs w Hex HI. unfold ghost. eapply Inv_emit; [exact HI|reflexivity|].
   intros [] [p b] _ HR. cbn [ustep]. eexists. split.
   - apply qstep_g; try discriminate. reflexivity.
-  - apply RQ_owed_rem; assumption.
+  - apply RQ_owed_rem; [assumption|]. intros Het. apply Hex. destruct (q_et _ _ _ _ _ _ _ HR). congruence.
 Qed.
 
 Lemma Q_owed : forall W ops xa rf k c w, k = "eagain" \/ k = "rearm-write" ->
-  QINV (RQ W ops xa rf) w ->
-  QINV (RQ W ops (match xa with QE c0 o => if c0 =? c then QE c0 true else xa | _ => xa end) rf) (ghost k c [] w).
+  QINV (RQ W ops xa rf) w -> QINV (RQ W ops (xa_owed xa c) rf) (ghost k c [] w).
 Proof.
   intros W ops xa rf k c w Hk HI. unfold ghost. eapply Inv_emit; [exact HI|destruct Hk; subst; reflexivity|].
   intros [] [p b] _ HR. cbn [ustep]. eexists. split.
@@ -523,9 +613,9 @@ Proof.
 Qed.
 
 Lemma Q_sys_wr_gen : forall W ops rf (a ah ae af : qxa) cid fd src exact w k w',
-  (forall bs w0, QINV (RQ W ops a rf) w0 -> QINV (RQ W ops ah rf) (ghost "hand" cid bs w0)) ->
-  (forall w0, QINV (RQ W ops a rf) w0 -> QINV (RQ W ops ae rf) (ghost "eagain" cid [] w0)) ->
-  (forall w0, QINV (RQ W ops a rf) w0 -> QINV (RQ W ops af rf) (ghost "fail" cid [] w0)) ->
+  (forall bs w0, l_et (st w0) = l_et (st w) -> QINV (RQ W ops a rf) w0 -> QINV (RQ W ops ah rf) (ghost "hand" cid bs w0)) ->
+  (forall w0, l_et (st w0) = l_et (st w) -> QINV (RQ W ops a rf) w0 -> QINV (RQ W ops ae rf) (ghost "eagain" cid [] w0)) ->
+  (forall w0, l_et (st w0) = l_et (st w) -> QINV (RQ W ops a rf) w0 -> QINV (RQ W ops af rf) (ghost "fail" cid [] w0)) ->
   QINV (RQ W ops a rf) w -> sys_wr cid fd src exact w = (k, w') ->
   match k with
   | KOk n _ => 0 <= n /\ QINV (RQ W ops ah rf) w'
@@ -539,6 +629,7 @@ Proof.
   destruct (pull _) as [[[nm0 args]|] w1] eqn:Ep.
   2:{ inversion E; subst. exact (Inv_pull ustep qstep tt _ _ _ _ _ (RQ_pull_ok _ _ _ _) HI0 Ep). }
   pose proof (Q_pull _ _ _ _ _ _ _ _ HI0 Ep) as H1.
+  assert (Hm1 : l_et (st w1) = l_et (st w)) by (rewrite (pull_gen_et _ _ _ _ Ep), st_emit; reflexivity).
   destruct (String.eqb nm0 "r"); [|inversion E; subst; eapply Inv_desync; exact H1].
   destruct args as [|[?|?|nm] [|[off|?|?] [|[n|?|?] rest]]];
     try (inversion E; subst; eapply Inv_desync; exact H1).
@@ -549,28 +640,29 @@ Proof.
   set (offered := if exact then src else ztake off src) in E.
   assert (H2 : QINV (RQ W ops a rf) (emit (obs "wdata" [ABytes offered]) w1))
     by (apply Q_emit; [qoign|exact H1]).
+  assert (Hm2 : l_et (st (emit (obs "wdata" [ABytes offered]) w1)) = l_et (st w)) by (rewrite st_emit; exact Hm1).
   destruct (n <? 0) eqn:En.
-  - destruct rest as [|[?|?|e] ?]; inversion E; subst; try (apply Hf; exact H2).
-    destruct (is_eagain e); [apply He; exact H2|apply Hf; exact H2].
-  - inversion E; subst. split; [lia|]. apply Hh. exact H2.
+  - destruct rest as [|[?|?|e] ?]; inversion E; subst; try (apply Hf; [exact Hm2|exact H2]).
+    destruct (is_eagain e); [apply He; [exact Hm2|exact H2]|apply Hf; [exact Hm2|exact H2]].
+  - inversion E; subst. split; [lia|]. apply Hh; [exact Hm2|exact H2].
 Qed.
 
 (* a write on a connection whose outbound buffer is empty (conn_write_loop, conn_writev_loop, open_loop) *)
-Lemma Q_sys_wr_E : forall W ops rf o cid fd src exact w k w',
-  QINV (RQ W ops (QE cid o) rf) w -> sys_wr cid fd src exact w = (k, w') ->
+Lemma Q_sys_wr_E : forall W ops rf o cid cfd fd src exact w k w',
+  QINV (RQ W ops (QE cid cfd o) rf) w -> sys_wr cid fd src exact w = (k, w') ->
   match k with
-  | KOk n _ => 0 <= n /\ QINV (RQ W ops (QE cid false) rf) w'
-  | KErr e => if is_eagain e then QINV (RQ W ops (QE cid true) rf) w' else QINV (RQ W ops (QE cid o) rf) w'
+  | KOk n _ => 0 <= n /\ QINV (RQ W ops (QE cid cfd false) rf) w'
+  | KErr e => if is_eagain e then QINV (RQ W ops (QE cid cfd true) rf) w' else QINV (RQ W ops (QE cid cfd o) rf) w'
   | KNone => QINV RF w'
   end.
 Proof.
-  intros W ops rf o cid fd src exact w k w' HI E.
-  eapply (Q_sys_wr_gen W ops rf (QE cid o) (QE cid false) (QE cid true) (QE cid o)); [| | |exact HI|exact E].
-  - intros bs w0 H0. pose proof (Q_hand _ _ _ _ cid bs _ (or_intror (or_introl (ex_intro _ o eq_refl))) H0) as H.
+  intros W ops rf o cid cfd fd src exact w k w' HI E.
+  eapply (Q_sys_wr_gen W ops rf (QE cid cfd o) (QE cid cfd false) (QE cid cfd true) (QE cid cfd o)); [| | |exact HI|exact E].
+  - intros bs w0 _ H0. pose proof (Q_hand _ _ _ _ cid bs _ (fun _ => or_intror (ex_intro _ cfd (ex_intro _ o eq_refl))) H0) as H.
     cbn [xa_hand] in H. rewrite Z.eqb_refl in H. exact H.
-  - intros w0 H0. pose proof (Q_owed _ _ _ _ "eagain" cid _ (or_introl eq_refl) H0) as H.
+  - intros w0 _ H0. pose proof (Q_owed _ _ _ _ "eagain" cid _ (or_introl eq_refl) H0) as H.
     cbn in H. rewrite Z.eqb_refl in H. exact H.
-  - intros w0 H0. apply Q_fail. exact H0.
+  - intros w0 _ H0. apply Q_fail. exact H0.
 Qed.
 
 (* ------------------------------------------------------------------ *)
@@ -584,7 +676,7 @@ Definition with_want (p : progst) (ww : list (Z * bool)) : progst :=
   mkP (p_et p) ww None (p_owed p) (p_dirty p) (p_dead p).
 
 (* the relation while the result is awaited *)
-Definition RQl (W ops : list Z) (xa : qxa) (rf : option Z) (v : Z * Z * bool) (u : unit) (x : progst * rdst) (s : lstate) : Prop :=
+Definition RQl (W : list Z) (ops : list (Z * Z)) (xa : qxa) (rf : option Z) (v : Z * Z * bool) (u : unit) (x : progst * rdst) (s : lstate) : Prop :=
   exists p0, RQ W ops xa rf u (p0, snd x) s /\ fst x = with_last p0 (Some v).
 
 Lemma prog_step_in_notr : forall p name args, name <> "r" -> prog_step p (EIn (name, args)) = Some p.
@@ -674,7 +766,7 @@ Qed.
 Lemma RQ_want : forall W ops xa rf u p0 b s ww,
   RQ W ops xa rf u (p0, b) s ->
   (et = false -> forall fd c, In (fd, c) (l_reg s) -> c_udp (getc s c) = false -> pdead p0 c = false ->
-     pdirty p0 c = false -> c_out (getc s c) <> [] -> xa <> QX c ->
+     pdirty p0 c = false -> c_out (getc s c) <> [] -> ~ exempt xa c ->
      getd false fd (p_want_w p0) = true -> getd false fd ww = true) ->
   RQ W ops xa rf u (with_want p0 ww, b) s.
 Proof.
@@ -747,61 +839,30 @@ Qed.
 (* ------------------------------------------------------------------ *)
 (* setting and dropping side assertions *)
 
-Lemma RQ_xa_set : forall W ops xa' rf u x s, RQ W ops QNone rf u x s -> qsem xa' (fst x) s -> RQ W ops xa' rf u x s.
-Proof.
-  intros W ops xa' rf u [p b] s HR X. cbn [fst] in X.
-  eapply RQ_prog; [exact HR|reflexivity|exact (q_last _ _ _ _ _ _ _ HR)|auto| | | |exact X].
-  - intros fd c H D. destruct (q_regop _ _ _ _ _ _ _ HR fd c H D) as [A|[A|A]]; auto. discriminate.
-  - exact (q_nop _ _ _ _ _ _ _ HR).
-  - intros fd c H A D E F G. apply (q_main _ _ _ _ _ _ _ HR fd c H A D E F). discriminate.
-Qed.
-
-Lemma RQ_xa_drop : forall W ops xa rf u x s, (forall c, xa <> QX c) -> (forall c, xa <> QRegd c) ->
-  RQ W ops xa rf u x s -> RQ W ops QNone rf u x s.
-Proof.
-  intros W ops xa rf u [p b] s N1 N2 HR.
-  eapply RQ_prog; [exact HR|reflexivity|exact (q_last _ _ _ _ _ _ _ HR)|auto| | | |exact I].
-  - intros fd c H D. destruct (q_regop _ _ _ _ _ _ _ HR fd c H D) as [A|[A|A]]; auto. exfalso. eapply N2; eauto.
-  - exact (q_nop _ _ _ _ _ _ _ HR).
-  - intros fd c H A D E F _. apply (q_main _ _ _ _ _ _ _ HR fd c H A D E F). apply N1.
-Qed.
-
 Lemma Q_xa_set : forall W ops xa' rf w,
   (forall u x, RQ W ops QNone rf u x (st w) -> qsem xa' (fst x) (st w)) ->
   QINV (RQ W ops QNone rf) w -> QINV (RQ W ops xa' rf) w.
-Proof. intros W ops xa' rf w H HI. eapply Q_weaken; [|exact HI]. intros u x HR. apply RQ_xa_set; [exact HR|apply (H u x HR)]. Qed.
+Proof. intros W ops xa' rf w H HI. eapply Q_xa_weaken; [| |exact H|exact HI]; [discriminate|intros c []]. Qed.
 
-Lemma Q_xa_drop : forall W ops xa rf w, (forall c, xa <> QX c) -> (forall c, xa <> QRegd c) ->
+Lemma Q_xa_drop : forall W ops xa rf w, (forall c, ~ exempt xa c) -> (forall c, xa <> QRegd c) ->
   QINV (RQ W ops xa rf) w -> QINV (RQ W ops QNone rf) w.
-Proof. intros W ops xa rf w N1 N2 HI. eapply Q_weaken; [|exact HI]. intros u x HR. eapply RQ_xa_drop; eauto. Qed.
+Proof.
+  intros W ops xa rf w N1 N2 HI. eapply Q_xa_weaken; [exact N2| | |exact HI].
+  - intros c Ex. exfalso. eapply N1; eauto.
+  - intros; exact I.
+Qed.
 
 (* from an exempt connection: EAGAIN / a queued write task serve it, a fatal result dooms it *)
-Lemma Q_owed_x : forall W ops rf k c w, k = "eagain" \/ k = "rearm-write" ->
+Lemma Q_owed_x : forall W ops rf k c w, k = "eagain" \/ k = "rearm-write" -> l_et (st w) = true ->
   QINV (RQ W ops (QX c) rf) w -> QINV (RQ W ops QNone rf) (ghost k c [] w).
 Proof.
-  intros W ops rf k c w Hk HI. unfold ghost. eapply Inv_emit; [exact HI|destruct Hk; subst; reflexivity|].
+  intros W ops rf k c w Hk Hb HI. unfold ghost. eapply Inv_emit; [exact HI|destruct Hk; subst; reflexivity|].
   intros [] [p b] _ HR. cbn [ustep]. eexists. split.
   - apply qstep_g; try (destruct Hk; subst; discriminate). destruct Hk; subst; reflexivity.
   - pose proof (RQ_owed_add _ _ _ _ _ _ _ _ c HR) as H1. cbn in H1.
-    eapply RQ_unexempt; [exact H1|left; reflexivity|].
-    intros fd _ _ _ _ _. unfold served. pose proof (q_x _ _ _ _ _ _ _ HR) as X. cbn [qsem] in X. rewrite X.
+    eapply (RQ_unexempt _ _ _ _ _ _ _ _ c); [exact H1|cbn; auto|discriminate|].
+    intros fd _ _ _ _ _. unfold served. destruct (q_et _ _ _ _ _ _ _ HR) as [X _]. rewrite <- X, Hb.
     cbn [set_owed p_owed]. rewrite zmem_cons, Z.eqb_refl. reflexivity.
-Qed.
-
-Lemma RQ_dead_add : forall W ops xa rf u p b s c,
-  RQ W ops xa rf u (p, b) s ->
-  RQ W ops xa rf u (mkP (p_et p) (p_want_w p) (p_last p) (p_owed p) (p_dirty p) (c :: p_dead p), b) s.
-Proof.
-  intros W ops xa rf u p b s c HR.
-  assert (Hd : forall c0, pdead p c0 = true -> pdead (mkP (p_et p) (p_want_w p) (p_last p) (p_owed p) (p_dirty p) (c :: p_dead p)) c0 = true).
-  { intros c0 H. unfold pdead in *. cbn [p_dead]. rewrite zmem_cons, H. apply orb_true_r. }
-  assert (Hd' : forall c0, pdead (mkP (p_et p) (p_want_w p) (p_last p) (p_owed p) (p_dirty p) (c :: p_dead p)) c0 = false -> pdead p c0 = false).
-  { intros c0 H. destruct (pdead p c0) eqn:E; [rewrite (Hd _ E) in H; discriminate|reflexivity]. }
-  eapply RQ_prog; [exact HR|reflexivity|exact (q_last _ _ _ _ _ _ _ HR)|exact Hd| | | |].
-  - intros fd c0 H D. apply (q_regop _ _ _ _ _ _ _ HR fd c0 H). apply Hd'. exact D.
-  - intros c0 A B D E. apply (q_nop _ _ _ _ _ _ _ HR c0 A B); [apply Hd'; exact D|exact E].
-  - intros fd c0 H A D E F G. apply (q_main _ _ _ _ _ _ _ HR fd c0 H A); auto.
-  - pose proof (q_x _ _ _ _ _ _ _ HR) as X. destruct xa; exact X.
 Qed.
 
 Lemma Q_fail_x : forall W ops rf c w,
@@ -810,8 +871,8 @@ Proof.
   intros W ops rf c w HI. unfold ghost. eapply Inv_emit; [exact HI|reflexivity|].
   intros [] [p b] _ HR. cbn [ustep]. eexists. split.
   - apply qstep_g; try discriminate. reflexivity.
-  - eapply RQ_unexempt; [apply RQ_dead_add; exact HR|left; reflexivity|].
-    intros fd _ _ D. exfalso. unfold pdead in D. cbn [p_dead] in D. rewrite zmem_cons, Z.eqb_refl in D. discriminate.
+  - eapply (RQ_unexempt _ _ _ _ _ _ _ _ c); [apply RQ_dead_add; exact HR|cbn; auto|discriminate|].
+    intros fd _ _ D. exfalso. rewrite pdead_cons, Z.eqb_refl in D. discriminate.
 Qed.
 
 (* ------------------------------------------------------------------ *)
@@ -869,42 +930,3 @@ Qed.
 
 End ET.
 
-(* the trigger mode never changes *)
-Lemma apply_async_et : forall s l s', apply_async s l = Some s' -> l_et s' = l_et s.
-Proof.
-  intros s l s' E. apply apply_async_cases in E. destruct E as [(b & t & _ & ->)|(b & c & cb & _ & ->)];
-    cbn [set_flag set_queues l_et]; unfold enqueue; destruct (_ && _); reflexivity.
-Qed.
-
-Lemma pull_from_et : forall picks i s lg s' lg' o r,
-  pull_from picks s lg i = (s', lg', o, r) -> l_et s' = l_et s.
-Proof.
-  intros picks. induction i as [|l i IH]; intros s lg s' lg' o r E; cbn [pull_from] in E.
-  - inversion E; reflexivity.
-  - destruct (apply_async s l) as [s1|] eqn:Ea.
-    + rewrite (IH _ _ _ _ _ _ E). eapply apply_async_et; eauto.
-    + destruct (negb picks && is_pick l); [eauto|inversion E; reflexivity].
-Qed.
-
-Lemma pull_gen_et : forall picks w o w', pull_gen picks w = (o, w') -> l_et (st w') = l_et (st w).
-Proof.
-  intros picks w o w' E. unfold pull_gen in E. destruct (halt w); [inversion E; reflexivity|].
-  destruct (pull_from picks (st w) (log w) (inp w)) as [[[s lg] o'] r] eqn:Ep.
-  pose proof (pull_from_et _ _ _ _ _ _ _ _ Ep) as H. destruct o'; inversion E; subst; exact H.
-Qed.
-
-Lemma sys_wr_et : forall cid fd src exact w k w', sys_wr cid fd src exact w = (k, w') -> l_et (st w') = l_et (st w).
-Proof.
-  intros cid fd src exact w k w' E. rewrite sys_wr_eq in E.
-  destruct (pull _) as [[[nm0 args]|] w1] eqn:Ep; pose proof (pull_gen_et _ _ _ _ Ep) as H1; rewrite st_emit in H1.
-  2:{ inversion E; subst; exact H1. }
-  assert (Hd : forall what, l_et (st (desync what w1)) = l_et (st w)) by (intros; rewrite st_desync; exact H1).
-  destruct (String.eqb nm0 "r"); [|inversion E; subst; apply Hd].
-  destruct args as [|[?|?|nm] [|[off|?|?] [|[n|?|?] rest]]]; try (inversion E; subst; apply Hd).
-  destruct (negb (sym_eqb nm "wr")); [inversion E; subst; apply Hd|].
-  destruct (_ || _ || _); [inversion E; subst; apply Hd|].
-  cbv zeta in E. destruct (n <? 0).
-  - destruct rest as [|[?|?|e] ?]; inversion E; subst; rewrite ?st_ghost, ?st_emit; try exact H1.
-    destruct (is_eagain e); rewrite ?st_ghost, ?st_emit; exact H1.
-  - inversion E; subst. rewrite st_ghost, st_emit. exact H1.
-Qed.
